@@ -501,10 +501,44 @@ def translate_reader(fn: ast.FunctionDef, consts: dict) -> dict:
     if set(inv) != {'START', 'BLOCK', 'END'} or len(roles) != 3 or n is None:
         raise TranslateError('iter_nullstr: loop shape not recognised (neither read-one-and-accumulate nor tell/read/find)')
     rest = loop[i:]
+    endv, blockv, startv = inv['END'], inv['BLOCK'], inv['START']
+    inner = None
+    if rest and isinstance(rest[0], ast.While) and not rest[0].orelse and ast.unparse(rest[0].test).replace(' ', '') in (f'{endv}==-1', f'{endv}<0', f'-1=={endv}'):
+        # an inner loop that fetches further blocks while no terminator has been found:
+        #     while end == -1: <empty block raises>; chars.extend(block); [start = file.tell();] block = file.read(n); end = block.find(NUL)
+        # then the statements for "found".  Whether `start` is taken again before each further block decides where the final
+        # seek(start + end + 1) lands: at the terminator (RBlockLoop) or `end` bytes after where the FIRST block began (RBlockLoopRel).
+        wb = norm_block([s for s in rest[0].body if not isinstance(s, ast.Pass)])
+        if buf is None or not wb or not isinstance(wb[0], ast.If):
+            raise TranslateError('iter_nullstr: inner block loop: `if not block: raise` expected first')
+        br = _branches(wb[0], lambda tt: _char_class(tt, blockv, 'block') - {'NUL'}, {'EOF', 'OTHER'})
+        eof = [s for s in br['EOF'] if not isinstance(s, ast.Pass)]
+        oth = [s for s in br['OTHER'] if not isinstance(s, (ast.Pass, ast.Continue))] + wb[1:]
+        if len(eof) != 1 or not isinstance(eof[0], ast.Raise) or not oth or not _is_append(oth[0], buf, blockv):
+            raise TranslateError('iter_nullstr: inner block loop: empty block must raise, a block without terminator must be appended to the buffer')
+        restart = False
+        seen_roles = []
+        for s2 in oth[1:]:
+            if not (isinstance(s2, ast.Assign) and len(s2.targets) == 1 and isinstance(s2.targets[0], ast.Name)):
+                raise TranslateError(f'line {s2.lineno}: iter_nullstr: inner block loop: statement not understood')
+            nm2, v2 = s2.targets[0].id, s2.value
+            c2 = method_call(v2, fvar, 'tell')
+            if nm2 == startv and c2 is not None and not c2.args and not seen_roles:
+                restart = True
+            elif nm2 == blockv and _read_call(v2, fvar, consts) == n:
+                seen_roles.append('BLOCK')
+            elif nm2 == endv and isinstance(v2, ast.Call) and isinstance(v2.func, ast.Attribute) and v2.func.attr == 'find' and is_name(v2.func.value, blockv) \
+                    and len(v2.args) == 1 and bytes_lit(v2.args[0]) == NUL:
+                seen_roles.append('END')
+            else:
+                raise TranslateError(f'line {s2.lineno}: iter_nullstr: inner block loop: assignment {ast.unparse(s2)[:60]!r} not understood')
+        if seen_roles != ['BLOCK', 'END']:
+            raise TranslateError('iter_nullstr: inner block loop: the next block and its find() result must be taken at the end of the body')
+        inner = 'RBlockLoop' if restart else 'RBlockLoopRel'
+        rest = [ast.If(test=ast.parse(f'{endv} != -1', mode='eval').body, body=rest[1:], orelse=[ast.Raise(exc=None, cause=None)], lineno=rest[0].lineno, col_offset=0)]
     if len(rest) != 1 or not isinstance(rest[0], ast.If):
         raise TranslateError('iter_nullstr: block shape: a test of the find() result expected')
     t = rest[0].test
-    endv, blockv, startv = inv['END'], inv['BLOCK'], inv['START']
     src = ast.unparse(t).replace(' ', '')
     if src in (f'{endv}==-1', f'{endv}<0', f'-1=={endv}'):
         notfound, found = rest[0].body, rest[0].orelse
@@ -527,6 +561,12 @@ def translate_reader(fn: ast.FunctionDef, consts: dict) -> dict:
             raise TranslateError('iter_nullstr: looping block shape: empty block must raise, a block without terminator must be appended to the buffer')
         looping = True
     found = [s for s in found if not isinstance(s, ast.Pass)]
+    if inner is not None:
+        looping = True
+        # the seek may come after the last piece is appended to the buffer: both only move data that is already read
+        sk_i = [k for k, s in enumerate(found) if isinstance(s, ast.Expr) and method_call(s.value, fvar, 'seek') is not None]
+        if len(sk_i) == 1 and all(isinstance(x, ast.Expr) and method_call(x.value, buf, 'extend') is not None for x in found[:sk_i[0]]):
+            found = [found[sk_i[0]]] + found[:sk_i[0]] + found[sk_i[0] + 1:]
     # file.seek(start + end + 1)
     if not found or not (isinstance(found[0], ast.Expr) and method_call(found[0].value, fvar, 'seek') is not None):
         raise TranslateError('iter_nullstr: block shape: file.seek(...) expected once the terminator is found')
@@ -561,7 +601,7 @@ def translate_reader(fn: ast.FunctionDef, consts: dict) -> dict:
     if svar is None or not cleared:
         raise TranslateError('iter_nullstr: block shape: string not decoded / buffer not cleared')
     ok, blank, acts = _dispatch(rest2, svar)
-    return {'reader': f'{"RBlockLoop" if looping else "RBlock"} {n}', 'dispatch': ok, 'blank_r': blank, 'codec': codec, 'actions': acts}
+    return {'reader': f'{inner or ("RBlockLoop" if looping else "RBlock")} {n}', 'dispatch': ok, 'blank_r': blank, 'codec': codec, 'actions': acts}
 
 
 # ------------------------------------------------------------------------------------------------ census of the call sites
